@@ -71,6 +71,12 @@ type Ctx struct {
 	cg     *callgraph.Graph
 	cgKind string
 
+	view       string // "" (as written) | "inline-new" | "inline-pkg", see views.go
+	viewCache  map[string]map[*ssa.Function]*ssa.Function
+	viewNotes  []string
+	anchorSeen map[*ssa.Function]bool // anchors resolved by the plain view of the current property
+	nameIdx    map[string]*ssa.Function
+
 	funcsAll map[*ssa.Function]bool
 	quiet      int // >0: obligations are decided but not recorded (delegation probes)
 	delegDepth int
@@ -242,6 +248,7 @@ func (c *Ctx) FuncOpt(rel, name string) *ssa.Function {
 	}
 	if f != nil {
 		c.funcsSeen[f] = true
+		f = c.viewOf(f)
 	}
 	return f
 }
